@@ -20,8 +20,8 @@ from checks import c06  # noqa: E402
 from checks import c02, c15  # noqa: E402
 
 
-def c02_case(assigns, summary):
-    case = c02.build(assigns, 'w')
+def c02_case(assigns, summary, forms=None):
+    case = c02.build(assigns, 'w', forms)
     case.update(space='A')
     return {'key': pipeline.case_key('C02', case), 'summary': summary, 'case': case}
 
@@ -160,6 +160,11 @@ FINDINGS = [
          what="Potentiometer.read() truncated the provider's value before validating it: -0.5 read as 0 and 1023.5 as 1023 instead of raising", cases=[]),
     dict(id="KF-C11-parser-stack-overflow", property="C11", status="fixed", commit="cc28945",
          what="text on which CPython's parser gives up ('x = ' + '-' * 100000 + '1': MemoryError 'Parser stack overflowed') leaked a MemoryError from parse()", cases=[]),
+    dict(id="KF-C02-tuple-retype", property="C02", status="fixed", commit="38716d3",
+         what="a tuple assignment re-typed a declared variable for the analysis (v = 3; v, k = a > 2, 1; v = a + 1; d = v declared 'bool d')",
+         cases=[c02_case([("int_lit", "top"), ("bool_expr", "top"), ("int_expr", "top")], "x = 3; x, side1 = a > 2, 1; x = a + 1; d = x", ("plain", "tuple", "plain"))]),
+    dict(id="KF-C11-elif-quadratic", property="C11", status="fixed", commit="3b8dc05",
+         what="an elif header with a long run of blanks inside its condition took quadratic time (40 000 blanks: 6 s; 80 000: killed after 20 s)", cases=[]),
     dict(id="KF-C05-rebind", property="C05", status="open", commit=None,
          what="a Servo or Button name declared before the main loop and re-bound to another pin at the top of the loop body keeps driving/sampling the first pin (CPython uses the new object)",
          cases=[c05_case(("servo",), ("both",), ("loop",), True, 2), c05_case(("button",), ("both",), ("loop",), True, 2)]),
